@@ -295,6 +295,9 @@ def run_pit_case(ctx, case):
                                               "want": want.tolist()})
     ctx.nontrivial("pit", obs, ens, rnd, cst, censor)
     if not rnd:
+        ctx.reuse("pit", lambda o_, e_: call(m_.pit, o_, e_, random=False, cst=cst,
+                                             censor=censor, kind=kind), [obs, ens],
+                  (pits, np.asarray(sudo)), case)
         ctx.presentations("pit", lambda o_, e_: call(m_.pit, o_, e_, random=False, cst=cst,
                                                      censor=censor, kind=kind),
                           [obs, ens], (pits, np.asarray(sudo)), case,
@@ -359,6 +362,8 @@ def run_unif_case(ctx, case):
               lambda: {"a": [ast, apv], "b": [ast2, apv2]})
     if n >= 2:
         ctx.nontrivial("unif", u)
+    ctx.reuse("anderson_darling_test", lambda u_: call(m_.anderson_darling_test, u_), [u],
+              (ast, apv), case)
     ctx.presentations("anderson_darling_test",
                       lambda u_: call(m_.anderson_darling_test, u_), [u], (ast, apv), case,
                       np.random.default_rng(digest(u) % 2 ** 32), n=1)
